@@ -16,6 +16,7 @@ import AkdModel.Proto
 import AkdModel.Blob
 import AkdModel.Vrf
 import AkdModel.Conc
+import AkdModel.PollTrace
 open Akd Akd.Wire
 
 structure DState where
@@ -213,6 +214,42 @@ def stepL1 (st : DState) (toks : List String) : Option (DState × String) :=
     match Conc.validate base tr with
     | .ok v => some (st, ",".intercalate (v.outcomes.map fun (t, e) => s!"{t}:{e}"))
     | .error e => some (st, "invalid: " ++ e)
+  | ["poll.validate", lat, n, base, evs, answers] => do
+    -- a recorded run of the change-poller scenario, replayed on `Poll.lean` (PollTrace.validate)
+    let lat := lat == "1"
+    let n ← n.toNat?
+    let base ← base.toNat?
+    let parseEv (t : String) : Option (Option (Nat × Poll.TEv)) :=
+      match t.splitOn ":" with
+      | [tid, kind, stamp] => do
+        let tid ← tid.toNat?
+        let stampN : Option Nat := if stamp.startsWith "e" then (stamp.drop 1).toNat? else none
+        if tid = 0 then
+          if kind == "commit" then (stampN.map fun k => some (tid, Poll.TEv.commit k)) else some none
+        else if tid = n + 1 then
+          if kind == "get_azks" then (stampN.map fun k => some (tid, Poll.TEv.pollRead k))
+          else if kind == "get.done" then some (some (tid, Poll.TEv.pollDone))
+          else some none
+        else
+          if kind == "pause" then some (some (tid, Poll.TEv.start))
+          else if kind == "get_azks" then (stampN.map fun k => some (tid, Poll.TEv.missRead k))
+          else if kind == "get.done" then some (some (tid, Poll.TEv.missDone))
+          else if kind == "done" then some (some (tid, Poll.TEv.done))
+          else some none
+      | _ => none
+    let tr ← (evs.splitOn ",").mapM parseEv
+    let tr := tr.filterMap id
+    -- the epochs the real requests were answered from, per reader; `x` = the request returned an error
+    let real : List (List String) := (answers.splitOn ";").map fun a => (a.splitOn ",").filter (· ≠ "")
+    match Poll.validate lat n base tr with
+    | .error e => some (st, "invalid: " ++ e)
+    | .ok (out, sigs, cache) =>
+      let agree (m : List Nat) (r : List String) : Bool :=
+        m.length == r.length && (m.zip r).all fun (e, x) => x == "x" || x == toString e
+      let bad := (out.zip real).filter fun (m, r) => !agree m r
+      if out.length == real.length && bad.isEmpty then
+        some (st, s!"ok {sigs} {match cache with | some c => toString c | none => "-"}")
+      else some (st, s!"mismatch: model answers {out}, implementation {real}")
   | "pc.enum" :: rest => do
     -- the theorem (`partial_commit_invisible` / `full_commit_visible`): no partial commit is observable
     let _ ← parsePairs rest
